@@ -56,6 +56,9 @@ def strategy_(draw, tier):
     planted = [1 + ch.below(6) for _ in range(size)]
     if wt == "float" and ch.coin():
         planted = [x * 0.5 for x in planted]
+        if mult >= 2 and ch.coin():
+            # small elements with a fractional largest value: the region where a multiplicity can exceed the data it produces
+            planted = [ch.pick([0.5, 0.5, 1.0, 1.5]) for _ in planted]
     nnum = 1 + ch.below(4)
     numbers = []
     for _ in range(nnum):
@@ -204,8 +207,29 @@ def run_genset(case):
             pass
         if st_ in ("kTimeLimit",):
             return inconclusive("time_limit", labels)
+        # F26 (known): the integer*continuous product helper represents a multiplicity with ceil(log2(ub+1)) bits, where
+        # ub = max(total, numbers) bounds the PRODUCT; larger multiplicities (needed when an element is below 1) are cut off.
+        # The fact is computed from that documented design, not from the model: does any generating multiset exist whose
+        # multiplicities stay within that representable range?
+        import math
+
+        design_cap = min(mult, 2 ** math.ceil(math.log2(max([total] + list(numbers)) + 1)) - 1)
+        within = None
+        if design_cap >= 1:
+            if integral or all(float(x * 2).is_integer() for x in numbers + [total]):
+                f_ = 1 if integral else 2
+                within = gs.min_genset_int([int(n * f_) for n in numbers], int(total * f_), design_cap, None, kmax=5)[0] is not None
+            if not within:
+                for k_ in range(1, 4):
+                    ex = gs.exists_genset_float(list(numbers), total, design_cap, k_)
+                    if ex:
+                        within = True
+                        break
+                    if ex is None and within is None:
+                        break
         return violation("unsolved", f"a generating multiset exists ({wit}) but MinGenSet is not solved", labels,
-                         facts={"number_exceeds_total": any(n > total for n in numbers), "mult_exceeds_data": mult > max([total] + list(numbers)), "wt": wt})
+                         facts={"number_exceeds_total": any(n > total for n in numbers), "mult_exceeds_data": mult > max([total] + list(numbers)), "wt": wt,
+                                "design_cap": design_cap, "solution_within_design_cap": bool(within), "design_cap_explains": design_cap < mult and not within and not pcs})
     try:
         sol = list(guarded(m.get_solution))
     except Crash as c:
